@@ -268,6 +268,25 @@ CHECKS["C20"] = dict(
     technique="TLA+ spec (SrtmProps, TileCache) checked with TLC; TLC-generated rectangles and cache histories replayed into "
               "typhon.topography.SRTM30 with synthetic tiles")
 
+CHECKS["C05"] = dict(
+    text="ResultQueueDesign.tla models multiprocessing.Queue(maxsize=K) and the parent loop (local buffers, feeder, pipe, "
+         "bounded semaphore, crash marker, exit only after flush; PollAlive / Get / EndDrain) and TLC checks conservation, no "
+         "duplicates, per-child FIFO, the semaphore bound and termination under weak fairness for all interleavings (K <= 3); "
+         "the data side is CollocProps on the UNION of all files: TLC-generated point scenarios are split into files in four "
+         "ways (per tick, pairs, offset thirds, single) and run through collocate_filesets with 1-3 real worker processes, "
+         "bundle None/primary/daily, memory and Collocations-fileset output (read back), one unreadable file with "
+         "skip_file_errors, the 'no files match' and 'same span' scenarios; with thread-backed fake processes and a fake "
+         "queue with randomised feeder/poll timing many interleavings per scenario are run and the put/get logs plus the "
+         "delivered bag are validated by PipelineTrace.tla.",
+    ref="DESIGN.md §5 C05",
+    note="Trusted: TLC, CollocProps/ResultQueueDesign/PipelineTrace, the fake Process/Queue (semantics: a producer exits only "
+         "after its buffer is flushed, as a real process joins its feeder thread). Real-process runs are judged on the "
+         "schedule-independent bag only. Known finding (see known_findings.txt): output files named by the time span of their "
+         "primary points overwrite each other when two results share a span.",
+    technique="TLA+ spec (ResultQueueDesign model-checked incl. liveness; CollocProps as data oracle) with TLC; TLC-generated "
+              "scenarios replayed into Collocator.collocate_filesets with real and fake processes; queue logs validated by TLC "
+              "(PipelineTrace)")
+
 NOT_APPLICABLE = {
     "C07": "Every clause concerns floating-point accuracy of sin/cos/arctan2/sqrt compositions or convergence of a "
            "fixed-point iteration over a continuous domain; TLA+/TLC has no reals or transcendental functions and there "
